@@ -235,6 +235,7 @@ func (g *Gen) Step() bool {
 			choice{g.wt("badreq"), func() { g.opBadReq(conns) }},
 			choice{g.wt("trigburst"), func() { g.opTrigBurst(conns) }},
 			choice{g.wt("refburst"), func() { g.opRefBurst(conns) }},
+			choice{g.wt("recheckburst"), func() { g.opRecheckBurst(conns) }},
 			choice{g.wt("throtburst"), func() { g.opThrottleBurst(conns) }},
 			choice{g.wt("gcburst"), func() { g.opGCBurst(conns) }},
 			choice{g.wt("aliasburst") * boolInt(len(g.qnames) > 0), func() { g.opAliasBurst(conns) }},
@@ -1183,6 +1184,66 @@ func (g *Gen) opRefBurst(conns []*Client) {
 		} else if n == 1 {
 			g.w.Exec(Op{K: "creq", C: c.Idx, ID: g.nextID(c), M: "unsubscribe." + holder})
 		}
+	}
+}
+
+// opRecheckBurst: a resource the connection holds directly gets, by an event,
+// a reference to a resource nobody has loaded (its get stays outstanding), and
+// an access re-check of the holder is triggered at once: the re-check is
+// deferred behind the waiting event. What happens next - the answer, an
+// unsubscribe, the connection closing - is up to the following ops.
+func (g *Gen) opRecheckBurst(conns []*Client) {
+	c := g.conn(conns)
+	var holders []string
+	for rid, n := range c.Ref.Direct {
+		if n > 0 && !strings.Contains(rid, "?") && !strings.Contains(rid, "{cid}") && c.Ref.Held[rid] != nil && c.Ref.Held[rid].Type != 'e' {
+			if d := g.w.Svc.def(rid); d != nil && d.QueryMap == nil {
+				holders = append(holders, rid)
+			}
+		}
+	}
+	if len(holders) == 0 {
+		return
+	}
+	sort.Strings(holders)
+	holder := g.sample("rcholder", holders)
+	var fresh []string
+	for _, n := range g.names {
+		used := false
+		for _, o := range g.w.Clients {
+			if o.Ref.Held[n] != nil {
+				used = true
+			}
+		}
+		for _, pv := range g.w.PendingSorted() {
+			if pv.P.Subject == "get."+n {
+				used = true
+			}
+		}
+		if d := g.w.Svc.def(n); !used && d != nil && d.QueryMap == nil && !d.PerCID {
+			fresh = append(fresh, n)
+		}
+	}
+	if len(fresh) == 0 {
+		return
+	}
+	target := g.sample("rctarget", fresh)
+	d := g.w.Svc.def(holder)
+	v := g.w.Svc.variant(d, holder, "")
+	ref := Ref(target)
+	if v.Type == 'm' {
+		g.w.Exec(Op{K: "mut", S: holder, O: "set", Key: g.sample("key", []string{"a", "r", "s"}), Val: &ref})
+	} else {
+		g.w.Exec(Op{K: "mut", S: holder, O: "add", N: rapid.IntRange(0, len(v.Coll)).Draw(g.t, "idx"), Val: &ref})
+	}
+	switch rapid.IntRange(0, 2).Draw(g.t, "rctrigkind") {
+	case 0:
+		g.w.Exec(Op{K: "reaccess", S: holder})
+	case 1:
+		g.w.Exec(Op{K: "sysreset", P: `{"access":[` + jstr(holder) + `]}`})
+	default:
+		g.w.Exec(Op{K: "token", C: c.Idx, P: g.sample("token", g.tokens())})
+		g.w.Exec(Op{K: "token", C: c.Idx, P: g.sample("token", g.tokens())})
 	}
 }
 
